@@ -802,7 +802,8 @@ _ADD = {
                            "index): the value is converted to an unsigned type or tested against a lower bound first. (R-NULTERM) the line buffer that the bzip2 branch of EGioGets fills by raw reads is terminated on every path that returns it. (R-BGATE) the basis file of -b is written only behind a test of the solve status against OPTIMAL (or of the problem's basis). (R-FTYPE) the tokeniser call that splits the file name for the extension test has an empty comment set."},
     "_TRUNC": {},
     "C20": {"explanation": " The handler variables tested by QSlogv must have process-wide storage duration: a thread-local handler would leave every "
-                           "other thread of the host on the stderr branch."},
+                           "other thread of the host on the stderr branch. (R-REPRESTORE) a temporary redirection of the problem's string reporter by a "
+                           "writer is undone on every path to a return, failing ones included."},
 }
 _ADD.pop("_TRUNC", None)
 for _pid in ("C08", "C09", "C14", "C19"):
